@@ -1,5 +1,7 @@
 import RjModel.Lemmas.BossOutcome
 import RjModel.Generated.BehaviourWrites
+import RjModel.Generated.ConfirmShape
+import RjModel.Model.ConfirmShape
 /-! # C03 — nothing on the destination is deleted or overwritten without configured consent -/
 namespace Rj.C03
 open Rj
@@ -137,6 +139,13 @@ root-deletion gate, rewrites a behaviour after `resolve_spec`). -/
 theorem C03_behaviours_change_only_by_remembered_answers :
     Generated.behaviourWrites = [("dest_entry_needs_deleting_behaviour", "remembered"), ("dest_file_newer_behaviour", "remembered"),
       ("dest_file_older_behaviour", "remembered"), ("files_same_time_behaviour", "remembered")] := by decide
+
+
+/-- **`confirm_actions` still has the shape the model was written against** (a pin, not a translation: the normalised text of the function, extracted on
+every run, equals the copy kept next to the model in `Model/ConfirmShape.lean`).  The theorems above are about `confirmDeletes` / `confirmCopies` /
+`confirmActions`; the L2 consent stream compares them with the function's behaviour; this obligation makes any edit of the function visible even
+where the stream's scenarios do not reach. -/
+theorem C03_confirm_actions_shape : Generated.confirmActionsShape = confirmActionsShapeRef := by rfl
 
 
 end Rj.C03
